@@ -266,12 +266,13 @@ def observe_one(desc, perm, with_asm):
     from fim.authz.attribute_collector import ResourceAuthZAttributes
     from fim.logging.log_collector import LogCollector
     out = {'snap': None, 'validate': None, 'attrs': None, 'pdp': None, 'log': None, 'asm': None, 'asm_log': None, 'ops': None,
-           'asm_raw': None, 'late_validate': None, 'summary': None, 'asm_exact': None}
+           'asm_raw': None, 'late_validate': None, 'summary': None, 'asm_exact': None, 'asm_pre': None, 'asm_post': None}
     try:
         t, svcs = build(desc, perm)
     except Exception as e:
         out['attrs'] = {'err': 'build:' + type(e).__name__ + ':' + str(e)[:200]}
         return out
+    pre_ser = t.serialize() if (with_asm and desc['mode'] == 'topo') else None     # the model before any validate()
     if desc['validate']:
         try:
             t.validate()
@@ -341,10 +342,12 @@ def observe_one(desc, perm, with_asm):
         out['log'] = {'err': type(e).__name__}
     if with_asm and desc['mode'] == 'topo':
         from fim.graph.slices.networkx_asm import NetworkXGraphImporter, NetworkXASMFactory
+        from fim.graph.networkx_property_graph_disjoint import NetworkXGraphImporterDisjoint
+        IMPORTERS = {'shared': NetworkXGraphImporter, 'disjoint': NetworkXGraphImporterDisjoint}
 
-        def from_asm():
-            ser = t.serialize()
-            pg = NetworkXGraphImporter().import_graph_from_string(graph_string=ser)
+        def from_asm(ser, backend='shared'):
+            """collect from an ASM made of the GraphML text `ser`, held by the given in-memory backend"""
+            pg = IMPORTERS[backend]().import_graph_from_string(graph_string=ser)
             asm = NetworkXASMFactory.create(pg)
             az2 = ResourceAuthZAttributes()
             az2.collect_resource_attributes(source=asm)
@@ -352,9 +355,22 @@ def observe_one(desc, perm, with_asm):
             lc2 = LogCollector()
             lc2.collect_resource_attributes(source=asm)
             return attrs_list(az2), canon_log(log_obs(lc2))
+
+        def more(ser, which):
+            """further (model, backend) combinations, each judged by the oracle and (validated slices) by the model"""
+            res = {}
+            for backend in which:
+                try:
+                    al, lg = from_asm(ser, backend)
+                    res[backend] = {'attrs': al, 'log': lg}
+                except Exception as e:
+                    res[backend] = {'err': type(e).__name__}
+            return res
+        every = bool(desc.get('asm_all'))
         if desc['validate']:
             try:
-                al, lg = from_asm()
+                post = t.serialize()
+                al, lg = from_asm(post)
                 out['asm'] = canon_attrs(al)
                 out['asm_log'] = lg
                 if not desc['extras']:
@@ -362,7 +378,7 @@ def observe_one(desc, perm, with_asm):
                     # independently obtained enumeration of the same elements, from which the model (OAsm) must predict
                     # the ASM answer up to order (the component order of a reload is not reproducible: set of int ids)
                     from fim.user.topology import ExperimentTopology
-                    pg = NetworkXGraphImporter().import_graph_from_string(graph_string=t.serialize())
+                    pg = NetworkXGraphImporter().import_graph_from_string(graph_string=post)
                     asm = NetworkXASMFactory.create(pg)
                     t2 = ExperimentTopology(graph_string=asm.serialize_graph())
                     t2.validate()
@@ -371,14 +387,21 @@ def observe_one(desc, perm, with_asm):
                     out['asm_exact'] = {'snap': snapshot_api(t2), 'attrs': al, 'log': log_obs(lc3)}
             except Exception as e:
                 out['asm'] = {'err': type(e).__name__}
+            if out['validate'] == 'ok':
+                # the model as a client submits it (serialized BEFORE validate() stored the inferred service sites), and
+                # the one-graph-per-store backend: the ASM path must still agree with the validated topology object
+                out['asm_pre'] = more(pre_ser, ['disjoint', 'shared'] if every else ['disjoint'])
+                if every:
+                    out['asm_post'] = more(post, ['disjoint'])
         else:
             # topology never validated: the ASM path validates its reloaded copy itself (sites of services inferred
-            # there).  Judged by the oracle only (the model is not given the inferred sites).
+            # there).  Judged by the oracle only (the model is not given the inferred sites), on both backends.
             try:
-                al, lg = from_asm()
+                al, lg = from_asm(pre_ser)
                 out['asm_raw'] = al
             except Exception as e:
                 out['asm_raw'] = {'err': type(e).__name__}
+            out['asm_pre'] = more(pre_ser, ['disjoint'])
             try:
                 t.validate()
                 out['late_validate'] = 'ok'
@@ -399,6 +422,11 @@ def reset_stores():
     try:
         from fim.graph.networkx_property_graph import NetworkXGraphImporter
         NetworkXGraphImporter().delete_all_graphs()
+    except Exception:
+        pass
+    try:
+        from fim.graph.networkx_property_graph_disjoint import NetworkXGraphImporterDisjoint
+        NetworkXGraphImporterDisjoint().delete_all_graphs()
     except Exception:
         pass
 
@@ -519,6 +547,12 @@ def c_one(desc, o):
     out = ['(CFull %s %s %s (%s))' % (clist(full), cbool(desc['flags'][0]), cbool(desc['flags'][1]), py_val(obs))]
     if o.get('summary') is not None and isinstance(o['log'], dict) and 'err' not in o['log']:
         out.append('(CSummary %s (%s))' % (clist(ops), py_val(o['summary'])))
+    if desc['validate'] and o.get('validate') == 'ok' and not desc['extras']:
+        for grp in ('asm_pre', 'asm_post'):
+            for backend, r in sorted((o.get(grp) or {}).items()):
+                if 'err' not in r:
+                    # another serialization moment / backend of the same slice: the topology snapshot predicts it up to order
+                    out.append('(CCanon %s (%s) (%s))' % (clist(ops), py_val(r['attrs']), py_val(log_vals(r['log']))))
     if o.get('asm_exact'):
         ae = o['asm_exact']
         out.append('(CCanon [OAsm %s] (%s) (%s))' % (c_graph(ae['snap']), py_val(ae['attrs']), py_val(log_vals(ae['log']))))
@@ -958,7 +992,7 @@ def precompute(cases):
     try:
         ctx = mp.get_context('fork')
         with ctx.Pool(n) as pool:
-            obs = pool.map(_obs_worker, cases, chunksize=4)
+            obs = pool.map(_obs_worker, cases, chunksize=1)
         return {stable_hash(c): o for c, o in zip(cases, obs)}
     except Exception as e:      # fall back to in-process observation
         log('C11: worker pool failed (%r), observing in process' % (e,))
@@ -1011,6 +1045,7 @@ class Slices(Stream):
                 c = copy.deepcopy(d)
                 c['perm'] = p
                 c['asm'] = bool(j in (0, len(perms) - 1))
+                c['asm_all'] = bool(tier == 'thorough' and j == 0)
                 out.append(c)
             if i % 4 == 0:
                 out.append(gen_parts(d, rng))
@@ -1067,6 +1102,23 @@ class Slices(Stream):
                 return 'attributes collected from the serialized model differ from those of the topology object'
             if o['asm_log'] is not None and o['asm_log'] != canon_log(o['log']):
                 return 'accounting summary collected from the serialized model differs'
+        valid = (o['validate'] == 'ok') if case['validate'] else (o.get('late_validate') == 'ok')
+        for grp, when in (('asm_pre', 'before validate()'), ('asm_post', 'after validate()')):
+            for backend, r in sorted((o.get(grp) or {}).items()):
+                if not valid:
+                    continue
+                where = 'serialized model (%s, %s store)' % (when, backend)
+                if 'err' in r:
+                    return 'collection from the %s raised %s' % (where, r['err'])
+                if case['validate']:
+                    if canon_attrs(r['attrs']) != canon_attrs(o['attrs']):
+                        return 'attributes collected from the %s differ from those of the validated topology object' % where
+                    if r['log'] != canon_log(o['log']):
+                        return 'accounting summary collected from the %s differs' % where
+                else:
+                    w = check_authz(case, {'attrs': r['attrs'], 'validate': 'ok', 'pdp': None}, with_pdp=False)
+                    if w:
+                        return 'collected from the %s: %s' % (where, w)
         if o.get('asm_raw') is not None and o.get('late_validate') == 'ok':
             if isinstance(o['asm_raw'], dict):
                 return 'collection from the serialized model of a valid (not yet validated) slice raised %s' % o['asm_raw']['err']
@@ -1098,7 +1150,9 @@ class Slices(Stream):
         for c, o in zip(cases, obs):
             h['builds'] += 1
             h['mode_' + c['mode']] += 1
-            h['asm_collections'] += 1 if (o['asm'] is not None or o.get('asm_raw') is not None) else 0
+            h['asm_collections'] += (1 if (o['asm'] is not None or o.get('asm_raw') is not None) else 0) + len(o.get('asm_pre') or {}) + len(o.get('asm_post') or {})
+            h['asm_disjoint_backend'] += sum(1 for g_ in ('asm_pre', 'asm_post') if 'disjoint' in (o.get(g_) or {}))
+            h['asm_serialized_before_validate'] += len(o.get('asm_pre') or {}) + (1 if o.get('asm_raw') is not None else 0)
             h['order_identity' if is_identity(c) else 'order_permuted'] += 1
             h['component_order_permuted'] += 1 if any(v != sorted(v) for v in (c['perm'].get('comps') or {}).values()) else 0
             h['validated'] += 1 if c['validate'] else 0
@@ -1454,7 +1508,7 @@ class Histories(Stream):
     header = Slices.header
     case_type = 'list ccase'
     check_fn = 'check11_cases'
-    shard = 25
+    shard = 3
     rule = ('one case = ONE long-lived ExperimentTopology, built from a generated description and then EDITED 3-6 times '
             '(add/remove node, component, service, facility; change capacities / site; label a service port with the name a '
             'mirror service mirrors so that its exemption flips), with a collection after every edit by: the SAME '
